@@ -240,6 +240,20 @@ def run_case(c):
                 r['roots'] = rootdict(H.poles(**kw), env)
             elif name == 'zeros':
                 r['roots'] = rootdict(H.zeros(**kw), env)
+            elif name in ('poles_pairs', 'zeros_pairs', 'N_roots_pairs', 'D_roots_pairs'):
+                # the public pairs=True interfaces (dict form and list form)
+                src = {'poles_pairs': lambda **k_: H.poles(**k_), 'zeros_pairs': lambda **k_: H.zeros(**k_),
+                       'N_roots_pairs': lambda **k_: H.N.roots(**k_), 'D_roots_pairs': lambda **k_: H.D.roots(**k_)}[name]
+                prs, sgl = src(pairs=True)
+
+                def kv(k_):
+                    a_, b_ = list(k_)
+                    return [evaluate(sympy_of(a_), env).ser(), evaluate(sympy_of(b_), env).ser()]
+                r['pairs'] = [kv(k_) + [int(sympy_of(n_))] for k_, n_ in prs.items()]
+                r['singles'] = rootdict(sgl, env)
+                pl, sl = src(pairs=True, aslist=True)
+                r['pairs_list'] = [kv(k_) for k_ in pl]
+                r['singles_list'] = [evaluate(sympy_of(k_), env).ser() for k_ in sl]
             elif name == 'as_ZPK':
                 zeros, poles, K, undef = rf.as_ZPK()
                 r['zeros'] = rootdict(zeros, env)
